@@ -241,6 +241,7 @@ c_start(struct Camera* c)
     m->triggers = 0;
     m->zero_done = 0;
     ev("{\"e\":\"CamStart\",\"s\":%d,\"hd\":%d}", m->s, m->h);
+    vs_yield("cam_start");
     return Device_Ok;
 }
 static enum DeviceStatusCode
@@ -261,6 +262,7 @@ c_trig(struct Camera* c)
     m->triggers++;
     ev("{\"e\":\"CamTrig\",\"s\":%d,\"hd\":%d}", m->s, m->h);
     vs_signal(&trig_obj[m->s]);
+    vs_yield("cam_trigger"); // every device call is a scheduling point: a real driver call takes time / locks
     return Device_Ok;
 }
 static int abort_requested[MAXS];
@@ -274,10 +276,11 @@ c_frame(struct Camera* c, void* im, size_t* nbytes, struct ImageInfo* info)
     if (SC[s].trigger) {
         while (m->running && m->triggers <= 0)
             vs_wait(&trig_obj[s], "cam_wait_trigger");
-        if (!m->running || abort_requested[s]) {
-            *nbytes = 0; // released by stop/abort: no data
+        if (!m->running) {
+            *nbytes = 0; // released by the camera's own stop: no data
             return Device_Ok;
         }
+        // a trigger releases exactly one frame, whoever fired it (acquire_abort fires one to release a waiting source)
         m->triggers--;
     }
     if (epoch == 1 && (long)m->next_hw == SC[s].camfail) { // faults are one-shot: first acquisition only
@@ -381,6 +384,7 @@ s_start(struct Storage* st)
     m->nframes = 0;
     stor_count[m->s] = 0;
     ev("{\"e\":\"StorStart\",\"s\":%d,\"hd\":%d}", m->s, m->h);
+    vs_yield("sto_start");
     return DeviceState_Running;
 }
 static enum DeviceState
@@ -389,6 +393,7 @@ s_stop(struct Storage* st)
     struct MSto* m = containerof(st, struct MSto, sto);
     m->running = 0;
     ev("{\"e\":\"StorStop\",\"s\":%d,\"hd\":%d}", m->s, m->h);
+    vs_yield("sto_stop");
     return DeviceState_Armed;
 }
 static enum DeviceState
@@ -400,7 +405,7 @@ s_append(struct Storage* st, const struct VideoFrame* f, size_t* nbytes)
     // the packet is described when the call is made (zero-copy: it must not change while the device holds it)
     long rest = describe_packet(buf, 1 << 16, (const uint8_t*)f, (const uint8_t*)f + *nbytes, s);
     unsigned t0 = tag_of((const uint8_t*)f, *nbytes);
-    for (int k = 0; k < SC[s].slow; k++)
+    for (int k = 0; k <= SC[s].slow; k++)
         vs_yield("sto_slow");
     unsigned t1 = tag_of((const uint8_t*)f, *nbytes);
     if (m->nappend++ == SC[s].stofail && epoch == 1) {
